@@ -284,6 +284,19 @@ fn explore(ctx: &mut Ctx) {
         }
     }
     ctx.exhaustive_part("all strings up to 3-4 chars over 13 encoding-boundary scalars (U+0000, 7F, 80, 7FF, 800, FFF, 1000, D7FF, E000, FFFF, 10000, 10FFFF, 'a') x {empty delimiter, 5 delimiters as &str and as char}");
+    // lead-byte sweep: empty delimiter (char by char), the char itself and an ASCII char as delimiter
+    for s in gen::lead_byte_strings() {
+        eval(ctx, Case { s: s.clone(), delim: String::new(), as_char: false, hist: None });
+        let first = s.chars().find(|c| !c.is_ascii()).unwrap_or('a').to_string();
+        for dl in [first.as_str(), "a", "é"] {
+            eval(ctx, Case { s: s.clone(), delim: dl.into(), as_char: false, hist: None });
+            eval(ctx, Case { s: s.clone(), delim: dl.into(), as_char: true, hist: None });
+            for h in [0u32, 0b10101, 0b01010, u32::MAX] {
+                eval(ctx, Case { s: s.clone(), delim: dl.into(), as_char: true, hist: Some(h) });
+            }
+        }
+    }
+    ctx.exhaustive_part("lead-byte sweep: first / last scalar of each of the 51 UTF-8 lead bytes x 8 short contexts x {empty delimiter, the char itself, 'a', 'é'} as &str and char, 4 mixed histories");
     let n = ctx.by_tier(60_000, 1_500_000);
     let strat = (proptest::collection::vec(0usize..4, 0..40), proptest::collection::vec(0usize..4, 0..4), any::<bool>(), proptest::option::of(any::<u32>()));
     ctx.prop("split", n, strat, |ctx, v| {
